@@ -396,6 +396,13 @@ func runMerge(via int, outs []outcome, pi []int) (mergeOut, []int) {
 
 // run returns what the proxy returned and the arrival order that was imposed.
 func (in *instance) run(outs []outcome, pi []int) (mergeOut, []int) {
+	before, cancels, after := schedule(outs, pi)
+	return in.runSched(outs, before, cancels, after, false)
+}
+
+// runSched: release `before` one by one (each confirmed by the dequeue hook), cancel the caller
+// when some backend waits for it (or forceCancel), then release `after` one by one.
+func (in *instance) runSched(outs []outcome, before, cancels, after []int, forceCancel bool) (mergeOut, []int) {
 	n := len(outs)
 	deadlineMode := in.deadline
 	gates := make([]chan struct{}, n)
@@ -448,13 +455,12 @@ func (in *instance) run(outs []outcome, pi []int) (mergeOut, []int) {
 			order = append(order, i)
 		}
 	} else {
-		before, cancels, after := schedule(outs, pi)
 		for _, b := range before {
 			close(gates[b])
 			released[b] = true
 			waitDeq()
 		}
-		if len(cancels) > 0 {
+		if len(cancels) > 0 || forceCancel {
 			cancel()
 			for range cancels {
 				waitDeq()
@@ -648,23 +654,44 @@ func (g *gen) deadlineZero(via int, outs []outcome) {
 		r, e := in.p(context.WithValue(context.Background(), scenarioKey{}, &scenario{outs: outs}), newRequest())
 		res = mergeOut{r: r, e: e}
 	}()
-	eff := make([]outcome, n)
-	var cfgd []interface{}
+	var dropped []int
 	for i, o := range outs {
-		eff[i] = o
-		cfgd = append(cfgd, o.js())
-		if o.kind == kPayload {
-			ok := false
-			if res.r != nil {
-				_, ok = res.r.Data[fmt.Sprintf("m%d", i)]
-			}
-			if !ok {
-				eff[i] = outcome{kind: kCancel, deadline: true}
-			}
+		if o.kind == kPayload && (res.r == nil || !hasKey(res.r.Data, fmt.Sprintf("m%d", i))) {
+			dropped = append(dropped, i)
 		}
 	}
-	g.record("deadline-zero", via, eff, identity(n), res, map[string]interface{}{"endpoint_timeout": 0, "configured_backends": cfgd,
-		"note": "backends listed are the effective outcomes: a payload whose marker field m<i> is absent was replaced by the deadline error"})
+	g.record("deadline-zero", via, outs, identity(n), res, map[string]interface{}{"endpoint_timeout": 0, "__race": raceInfo{dropped, true},
+		"note": "a payload whose private marker field m<i> is absent from the response lost the select of requestPart against the expired context"})
+}
+
+func hasKey(m map[string]interface{}, k string) bool { _, ok := m[k]; return ok }
+
+// cancelRace: the caller's context is cancelled after the first k backends (order pi) have
+// been received; the remaining ones are then released one by one.  A payload released after
+// the cancellation is delivered as itself or as context.Canceled (the select of requestPart,
+// a runtime choice - LSendC of the goroutine model): which one is read off the response.
+func (g *gen) cancelRace(stream string, via int, outs []outcome, pi []int, k int) {
+	var before, cancels, after []int
+	for _, b := range pi {
+		switch {
+		case outs[b].kind == kCancel:
+			cancels = append(cancels, b)
+		case len(before) < k:
+			before = append(before, b)
+		default:
+			after = append(after, b)
+		}
+	}
+	res, order := newInstance(via, len(outs), false).runSched(outs, before, cancels, after, true)
+	var dropped []int
+	for _, i := range after {
+		if outs[i].kind == kPayload && (res.r == nil || !hasKey(res.r.Data, fmt.Sprintf("m%d", i))) {
+			dropped = append(dropped, i)
+		}
+	}
+	sort.Ints(dropped)
+	g.record(stream, via, outs, order, res, map[string]interface{}{"caller_cancelled_before": fmt.Sprintf("backends %v were released", after),
+		"__race": raceInfo{dropped, false}})
 }
 
 // ---- case emission ---------------------------------------------------------------------
@@ -749,12 +776,25 @@ func (g *gen) record(stream string, via int, outs []outcome, order []int, res me
 		}
 	}
 	term := emit.App("CMerge", emit.Nat(via), emit.List(ol), emit.NatList(order), oc)
+	if ri, ok := extra["__race"].(raceInfo); ok {
+		// what the backends returned + whose payload lost the select against the cancellation
+		term = emit.App("CRace", emit.Nat(via), emit.List(ol), emit.NatList(ri.dropped), emit.Bool(ri.deadline), emit.NatList(order), oc)
+		g.w.Count(fmt.Sprintf("race:payloads-dropped:%d", len(ri.dropped)))
+	} else if stream != "reuse-concurrent" && !hasDeadline(outs) && res.panicked == "" {
+		g.measure(outs, order, res)
+	}
 	js := map[string]interface{}{"level": "merge", "stream": stream, "via": []string{"NewMergeDataMiddleware", "DefaultFactory"}[via],
 		"backends": ojs, "imposed_arrival_order": order, "observed": oj}
 	suffix := ""
 	for k, v := range extra {
+		if k == "__race" {
+			ri := v.(raceInfo)
+			js["payloads_dropped_for_the_context_error"] = ri.dropped
+			suffix += fmt.Sprintf("|dropped=%s", intsStr(ri.dropped))
+			continue
+		}
 		js[k] = v
-		if k == "caller_context_cancelled" || k == "endpoint_timeout" {
+		if k == "caller_context_cancelled" || k == "endpoint_timeout" || k == "caller_cancelled_before" {
 			suffix += fmt.Sprintf("|%s=%v", k, v)
 		}
 	}
@@ -774,6 +814,55 @@ func (g *gen) record(stream string, via int, outs []outcome, order []int, res me
 		}
 	}
 	g.w.Add(term, js, "", fmt.Sprintf("M|%d|%s|%s%s", via, canonOuts(outs), intsStr(order), suffix), nontrivial(outs))
+}
+
+type raceInfo struct {
+	dropped  []int
+	deadline bool
+}
+
+// measure records (never fails on) two things the property leaves open and the model
+// states: the error entries in arrival order (C01_errors_in_arrival_order) and a nil Data
+// map exactly for a lone null-data payload (C01_data_nil_iff).
+func (g *gen) measure(outs []outcome, order []int, res mergeOut) {
+	var want []string
+	payloads, nullPayloads := 0, 0
+	for _, i := range order {
+		switch o := outs[i]; o.kind {
+		case kPayload:
+			payloads++
+			if o.data == nil {
+				nullPayloads++
+			}
+		case kErr:
+			want = append(want, "backend:"+o.tag)
+		case kEmpty:
+			want = append(want, "null-result")
+		default:
+			want = append(want, map[bool]string{false: "canceled", true: "deadline"}[o.deadline])
+		}
+	}
+	var got []string
+	if me, ok := res.e.(merr); ok {
+		for _, e := range me.Errors() {
+			_, j := ekind(e)
+			got = append(got, j)
+		}
+	}
+	if len(want) > 1 {
+		if strings.Join(want, "\x00") == strings.Join(got, "\x00") {
+			g.w.Count("measured:error-entries-in-arrival-order")
+		} else {
+			g.w.Count("measured:error-entries-in-another-order")
+		}
+	}
+	if res.r != nil {
+		if (res.r.Data == nil) == (payloads == 1 && nullPayloads == 1) {
+			g.w.Count("measured:nil-data-as-the-model")
+		} else {
+			g.w.Count("measured:nil-data-differs-from-the-model")
+		}
+	}
 }
 
 // ---- instance reuse ----------------------------------------------------------------------
@@ -1482,7 +1571,7 @@ func main() {
 			}
 		}
 	}
-	nLate, nZero := 300, 48
+	nLate, nZero := 250, 48
 	if cfg.Thorough() {
 		nLate, nZero = 3000, 600
 	}
@@ -1521,6 +1610,52 @@ func main() {
 		g.deadlineZero(c%2, outs)
 	}
 
+	// 1f. payloads racing with the caller's cancellation (requestPart's select; LSendC in
+	// the goroutine model): the cancellation comes after k receives, the other backends are
+	// released afterwards; every payload carries a private marker field m<i>
+	raceKind := func(kind, i int) outcome {
+		mk := fmt.Sprintf("m%d", i)
+		switch kind {
+		case 0:
+			return P(true, obj(mk, i, "a", fmt.Sprintf("v%d", i)))
+		case 1:
+			return P(false, obj(mk, i))
+		case 2:
+			return E(fmt.Sprintf("e%d", i))
+		case 3:
+			return N
+		case 4:
+			return E(fmt.Sprintf("r%d", i)).with(true, obj("a", fmt.Sprintf("x%d", i)))
+		}
+		return C
+	}
+	for v := 0; v < 36; v++ {
+		outs := []outcome{raceKind(v%6, 0), raceKind(v/6, 1)}
+		for _, pi := range perms(2) {
+			for k := 0; k <= 1; k++ {
+				g.cancelRace("cancel-race-n2", 0, outs, pi, k)
+			}
+		}
+	}
+	for _, k := range []int{0, 1, 2} {
+		for via := 0; via < 2; via++ {
+			g.cancelRace("cancel-race-corpus", via, []outcome{raceKind(0, 0), raceKind(0, 1), raceKind(0, 2)}, []int{2, 0, 1}, k)
+			g.cancelRace("cancel-race-corpus", via, []outcome{raceKind(0, 0), raceKind(2, 1), raceKind(1, 2)}, []int{0, 1, 2}, k)
+		}
+	}
+	nRace := 250
+	if cfg.Thorough() {
+		nRace = 3000
+	}
+	for c := 0; c < nRace; c++ {
+		n := 2 + r.Intn(4)
+		outs := make([]outcome, n)
+		for i := range outs {
+			outs[i] = raceKind([]int{0, 0, 0, 1, 2, 3, 4, 5}[r.Intn(8)], i)
+		}
+		g.cancelRace("cancel-race-random", r.Intn(2), outs, r.Perm(n), r.Intn(n))
+	}
+
 	// 2. exhaustive small scope: every outcome vector x every arrival order
 	g.seen = map[string]bool{}
 	maxN := 3
@@ -1552,7 +1687,7 @@ func main() {
 	g.seen = nil
 
 	// 3. structured random: up to 8 backends, overlapping fields, nested values
-	nRandom, nDeadline, nAcc, nComb := 1000, 10, 600, 200
+	nRandom, nDeadline, nAcc, nComb := 800, 10, 500, 200
 	if cfg.Thorough() {
 		nRandom, nDeadline, nAcc, nComb = 12000, 100, 6000, 1500
 	}
@@ -1627,6 +1762,6 @@ func main() {
 	}
 
 	w.Meta["imposed_orders"] = "arrival order imposed through proxy.SetVerifOnDequeue (site merge) and per-backend gates; cancelled backends deliver when the harness cancels the parent context"
-	w.Close(fmt.Sprintf("corpus of order-sensitive scenarios (both constructions); the caller's context cancelled at an exact late point (after k receives, every other message already delivered: corpus, all 12x12 vectors for 2 backends, random) and endpoints with timeout 0 (outcomes read off the response); instance reuse: one proxy serving sequences of 3-6 different scenarios (telling corpus + random) and 10 scenarios from 12 goroutines at once (each distinct (scenario, observation) pair once); every vector of %d outcome kinds (incl. error together with a response, errors implementing Errors() with 0/2 inner errors; 8 of them for 3 backends in quick, 6 for 4 backends) x every arrival order for 2..%d backends (orders that collapse because cancelled backends deliver together are run once; n=2 also through DefaultFactory); %d random scenarios with 2..8 backends, overlapping fields, nested values; %d deadline scenarios; %d accumulator call sequences (2..12 calls, total = number of calls) and %d combineData(2, [a, b]) calls; nontrivial = some backend is not a complete non-null payload or two payloads share a field",
+	w.Close(fmt.Sprintf("corpus of order-sensitive scenarios (both constructions); the caller's context cancelled at an exact late point (after k receives, every other message already delivered: corpus, all 12x12 vectors for 2 backends, random) endpoints with timeout 0 and payloads released after the caller's cancellation (the select of requestPart decides; whose payload was dropped is read off private marker fields; case kind CRace); instance reuse: one proxy serving sequences of 3-6 different scenarios (telling corpus + random) and 10 scenarios from 12 goroutines at once (each distinct (scenario, observation) pair once); every vector of %d outcome kinds (incl. error together with a response, errors implementing Errors() with 0/2 inner errors; 8 of them for 3 backends in quick, 6 for 4 backends) x every arrival order for 2..%d backends (orders that collapse because cancelled backends deliver together are run once; n=2 also through DefaultFactory); %d random scenarios with 2..8 backends, overlapping fields, nested values; %d deadline scenarios; %d accumulator call sequences (2..12 calls, total = number of calls) and %d combineData(2, [a, b]) calls; nontrivial = some backend is not a complete non-null payload or two payloads share a field",
 		smallKinds, maxN, nRandom, nDeadline, nAcc, nComb), true)
 }
